@@ -1081,6 +1081,16 @@ func c11LinkFragments(c *h.Ctx, id string, r *rand.Rand) {
 	}
 	rts := fwenv.InstallRecThreads(2)
 	fwfw.Threads = make([]*fwfw.Thread, 2)
+	// half of the cases start the face the way a listener does (LinkService.Run: face table, receive
+	// and send goroutines), with the configuration option that pins those goroutines to OS threads
+	viaRun := r.Intn(2) == 0
+	if viaRun {
+		cfg := fwenv.Config()
+		cfg.Faces.LockThreadsToCores = r.Intn(2) == 0
+		fwenv.Load(cfg)
+		defer fwenv.Load(fwenv.Config())
+	}
+	var runLS *face.NDNLPLinkService
 	opts := face.MakeNDNLPLinkServiceOptions()
 	opts.IsFragmentationEnabled = false // reliable stream (what the stream listeners set)
 	done := make(chan struct{})
@@ -1094,7 +1104,12 @@ func c11LinkFragments(c *h.Ctx, id string, r *rand.Rand) {
 		ls := face.MakeNDNLPLinkService(ut, opts)
 		ls.SetFaceID(911)
 		closeTr = ut.Close
-		go func() { face.VerifRunReceive(ut); close(done) }()
+		if viaRun {
+			runLS = ls
+			ls.Run(nil)
+		} else {
+			go func() { face.VerifRunReceive(ut); close(done) }()
+		}
 	} else {
 		tt, err := face.AcceptUnicastTCPTransport(srv, nil, face.PersistencyPersistent)
 		if err != nil {
@@ -1104,7 +1119,12 @@ func c11LinkFragments(c *h.Ctx, id string, r *rand.Rand) {
 		ls := face.MakeNDNLPLinkService(tt, opts)
 		ls.SetFaceID(912)
 		closeTr = tt.Close
-		go func() { face.VerifRunReceive(tt); close(done) }()
+		if viaRun {
+			runLS = ls
+			ls.Run(nil)
+		} else {
+			go func() { face.VerifRunReceive(tt); close(done) }()
+		}
 	}
 	nPk := 4 + r.Intn(8)
 	var packets [][]byte
@@ -1182,9 +1202,15 @@ func c11LinkFragments(c *h.Ctx, id string, r *rand.Rand) {
 	}
 	_ = closeTr
 	peer.Close() // the receive loop ends on EOF, as when an application disconnects
-	select {
-	case <-done:
-	case <-time.After(20 * time.Second):
+	if runLS != nil {
+		for dl := time.Now().Add(20 * time.Second); time.Now().Before(dl) && face.FaceTable.Get(runLS.FaceID()) != nil; {
+			time.Sleep(time.Millisecond)
+		}
+	} else {
+		select {
+		case <-done:
+		case <-time.After(20 * time.Second):
+		}
 	}
 	c.Eval(1)
 	var delivered [][]byte
@@ -1194,7 +1220,7 @@ func c11LinkFragments(c *h.Ctx, id string, r *rand.Rand) {
 			delivered = append(delivered, p.Raw)
 		}
 	}
-	det := map[string]any{"transport": kind, "packets": nPk, "reads": plan, "delivered": len(delivered)}
+	det := map[string]any{"transport": kind, "packets": nPk, "reads": plan, "delivered": len(delivered), "started_through_linkservice_run": viaRun}
 	if len(delivered) != nPk {
 		c.Violation("C11:link-fragments:packet-count", id, fmt.Sprintf("%d packets were sent as link-protocol fragments over a %s stream face (%s), %d reached the forwarding threads", nPk, kind, plan, len(delivered)), det)
 		return
